@@ -140,7 +140,7 @@ static std::string fresh_scenario(const std::string &key) {
 }
 
 // ---------------------------------------------------------------- running a history
-struct HistRes { std::vector<std::string> viols; std::string key; std::string log; };
+struct HistRes { std::vector<std::string> viols; std::string key; std::string log; long digest = 0; };
 
 static HistRes run_history(const std::string &hist, int nslots, bool verbose) {
   HistRes R;
@@ -233,6 +233,7 @@ static HistRes run_history(const std::string &hist, int nslots, bool verbose) {
     // invariants after every call: error codes of all live objects, settings untouched by calls on other objects
     for (int k = 0; k < nslots; k++) if (m.s[k].exists && vy_error_code(obj[k]) != m.s[k].last_err)
       V("C15", "error-code-drift", done, "slot " + std::to_string(k) + ": yaep_error_code = " + std::to_string(vy_error_code(obj[k])) + ", most recent failing call on that object returned " + std::to_string(m.s[k].last_err));
+    { unsigned long h = 1469598103934665603ULL; for (char c : done + "=" + ob) h = (h ^ (unsigned char) c) * 1099511628211ULL; R.digest += (long) (h >> 36); }
     if (verbose) R.log += "  " + op + " -> " + ob + "\n";
   }
 out:
@@ -271,7 +272,7 @@ static Model model_after(const std::string &hist) {
 }
 
 // ---------------------------------------------------------------- parallel execution of histories (each in a pristine child)
-struct WorkRes { std::string hist; std::vector<std::string> viols; std::string key; bool crashed = false; std::string crash; };
+struct WorkRes { std::string hist; std::vector<std::string> viols; std::string key; bool crashed = false; std::string crash; long digest = 0; };
 
 static WorkRes run_one_forked(const std::string &h, int nslots, int timeout) {
   WorkRes w; w.hist = h;
@@ -280,7 +281,7 @@ static WorkRes run_one_forked(const std::string &h, int nslots, int timeout) {
   int pfd[2]; if (pipe(pfd)) machinery_error("pipe");
   ChildRes cr = run_child([&](Report &r) {
     HistRes hr = run_history(h, nslots, false);
-    std::string out = "K\t" + hr.key + "\n";
+    std::string out = "K\t" + hr.key + "\nG\t" + std::to_string(hr.digest) + "\n";
     for (auto &v : hr.viols) out += "V\t" + v + "\n";
     ssize_t k = write(pfd[1], out.c_str(), out.size()); (void) k; (void) r;
   }, tmp, timeout);
@@ -290,7 +291,7 @@ static WorkRes run_one_forked(const std::string &h, int nslots, int timeout) {
   close(pfd[0]);
   if (!cr.ok) { w.crashed = true; w.crash = child_failure_text(cr) + (cr.err_tail.empty() ? "" : "; stderr: " + cr.err_tail.substr(0, 1200)); return w; }
   size_t p = 0;
-  while (p < data.size()) { size_t q = data.find('\n', p); std::string line = data.substr(p, q - p); if (line[0] == 'K') w.key = line.substr(2); else if (line[0] == 'V') w.viols.push_back(line.substr(2)); p = q + 1; }
+  while (p < data.size()) { size_t q = data.find('\n', p); std::string line = data.substr(p, q - p); if (line[0] == 'K') w.key = line.substr(2); else if (line[0] == 'G') w.digest = atol(line.c_str() + 2); else if (line[0] == 'V') w.viols.push_back(line.substr(2)); p = q + 1; }
   return w;
 }
 
@@ -317,7 +318,7 @@ static std::vector<WorkRes> run_many(const std::vector<std::string> &items, int 
         fprintf(f, "I\t%zu\n", i);
         auto flat = [](std::string x) { for (auto &c : x) if (c == '\n' || c == '\r') c = ' '; return x; };
         if (r.crashed) fprintf(f, "X\t%s\n", flat(r.crash).c_str());
-        fprintf(f, "K\t%s\n", r.key.c_str());
+        fprintf(f, "K\t%s\nG\t%ld\n", r.key.c_str(), r.digest);
         for (auto &v : r.viols) fprintf(f, "V\t%s\n", flat(v).c_str());
       }
       fclose(f);
@@ -336,6 +337,7 @@ static std::vector<WorkRes> run_many(const std::vector<std::string> &items, int 
       size_t q = data.find('\n', p); std::string line = data.substr(p, q - p); p = q + 1;
       if (line[0] == 'I') { cur = atol(line.c_str() + 2); res[cur].hist = items[cur]; }
       else if (line[0] == 'K') res[cur].key = line.substr(2);
+      else if (line[0] == 'G') res[cur].digest = atol(line.c_str() + 2);
       else if (line[0] == 'X') { res[cur].crashed = true; res[cur].crash = line.substr(2); }
       else if (line[0] == 'V') res[cur].viols.push_back(line.substr(2));
     }
@@ -486,7 +488,7 @@ int eng_hist_main(int argc, char **argv) {
       if (deadline > 0 && now_s() > deadline) { hit = true; break; }
       std::vector<std::string> chunk(level.begin() + b, level.begin() + std::min(level.size(), b + 20000));
       std::vector<WorkRes> rs = run_many(chunk, nslots, par, timeout);
-      for (auto &w : rs) { rep.add("histories_full_layer"); rep.add("api_calls", (long) split_ops(w.hist).size()); record(w, props, rep); }
+      for (auto &w : rs) { rep.add("histories_full_layer"); rep.add("api_calls", (long) split_ops(w.hist).size()); rep.counters["dg:full" + std::to_string(w.hist.size() % 7)] += w.digest; record(w, props, rep); }
       if (rep.violations.size() >= 100) break;
     }
   }
